@@ -16,3 +16,36 @@ Theorem C05_example :
   end.
 Proof. vm_compute. auto. Qed.
 Print Assumptions C05_example.
+
+(* ---- declarative form and what is proved of it ------------------------------------------------------------ *)
+From TrV Require Import Optimal Proofs.RefSpec Proofs.ValidAdm.
+
+Theorem C05_reference_solver_correct : forall d s p acc egr A lo span,
+  wf_data_b d = true -> wf_params_b p = true -> rows_ok d acc = true -> NEG < lo ->
+  match latest_departure_ref d s p A lo span acc egr with
+  | Some t => (exists rides, admissible_rev_gen d s p acc egr A lo span t rides) /\
+              (forall dep0 rides, admissible_rev_gen d s p acc egr A lo span dep0 rides -> dep0 <= t)
+  | None => forall dep0 rides, ~ admissible_rev_gen d s p acc egr A lo span dep0 rides
+  end.
+Proof. exact latest_departure_ref_gen_correct. Qed.
+Print Assumptions C05_reference_solver_correct.
+
+(* the first two conjuncts of C05_decl: not before the requested time, and the reported arrival is met *)
+Theorem C05_departure_attained : forall d s p acc egr,
+  opt_domain d s p acc egr -> q_fwd p = true -> C05_attained_prop d s p acc egr.
+Proof. exact C05_attained. Qed.
+Print Assumptions C05_departure_attained.
+
+(* tie to the source: the model's reverse step and best-access selection are the control skeleton instantiated with
+   the guards tools/gen_guards.py translated from reverse_calculation.cpp AS IT IS NOW (gen/Guards.v) *)
+From TrV Require Import Proofs.GuardsTie.
+Theorem C05_reverse_step_is_code : forall d p k st c, rev_step_code d p k st c = rev_step d p k false st c.
+Proof. exact rev_step_tie. Qed.
+Print Assumptions C05_reverse_step_is_code.
+Theorem C05_best_access_is_code : forall p k st, best_access_sk G.gen_rev_best_time G.gen_rev_best_ok p k st = best_access p k st.
+Proof. exact best_access_tie. Qed.
+Print Assumptions C05_best_access_is_code.
+
+Theorem C05_forward_step_is_code : forall d p k st c, fwd_step_code d p k st c = fwd_step d p k false st c.
+Proof. exact fwd_step_tie. Qed.
+Print Assumptions C05_forward_step_is_code.
